@@ -180,7 +180,7 @@ class AsyncClient(base_client.BaseClient):
                                       run_async=False)
             if self.current_transport == 'websocket':
                 await self.ws.close()
-            if not abort:
+            if not abort and self.read_loop_task:
                 await self.read_loop_task
             self.state = 'disconnected'
             try:
@@ -407,6 +407,7 @@ class AsyncClient(base_client.BaseClient):
             self.ping_timeout = int(open_packet.data['pingTimeout']) / 1000.0
             self.current_transport = 'websocket'
 
+            self.ws = ws
             self.state = 'connected'
             base_client.connected_clients.append(self)
             await self._trigger_event('connect', run_async=False)
